@@ -75,8 +75,10 @@ CLAIMS["C04"] = {
     "technique": "HIR per-variant symbolic arm summaries vs. a reviewed semantics table",
 }
 CLAIMS["C11"] = {
-    "text": "Decides that every Node::StringSet is built from a vector sorted longest-first on all paths (STRSORT): the structural condition behind "
-            "'under v exactly the strings'.",
+    "text": "Decides name -> enum -> table wiring (every accepted spelling normalises to its variant; accepted binary-property, General_Category and "
+            "property names equal the ECMAScript tables; each dispatcher arm returns its own table; string properties gated by v), well-formedness of "
+            "all 372 interval tables, ~60 UAX #44 identities between tables (gc leaves partition the code space, groups = unions, scripts partition, "
+            "scx >= sc, derived properties contain their definitions, stable closed forms), and that every Node::StringSet is sorted longest-first (STRSORT).",
     "note": COMMON_NOTE + "Not decided: table contents against UCD 17 (no copy offline).",
     "technique": "MIR dominator + value-flow rule with comparator-closure recognition",
 }
@@ -120,6 +122,18 @@ CLAIMS["C09"] = {
             "back as the out-parameter, initial_position is try_move_right(left_end, offset) (PLUMB).",
     "note": COMMON_NOTE + "Not decided: equality of the sequence with the unfold of first-match, which inherits C01.",
     "technique": "MIR must-pass-through (dominators / reachability with cut sets) + value-flow of the stored cursor",
+}
+
+
+CLAIMS["C10"] = {
+    "text": "Decides, from the extracted constants, that FOLDS / TO_UPPERCASE are well-formed (sorted, disjoint, stride and packing valid: the "
+            "precondition of the binary searches), that the largest equivalence class fits MAX_CHAR_SET_LENGTH, that on ASCII they equal what the "
+            "ASCII executor hard-codes, that the \\b table equals {c >= 0x80 : fold(c) is an ASCII word char} derived from FOLDS, that the legacy "
+            "non-ASCII-to-ASCII exclusion guards every use of TO_UPPERCASE, and UAX #44 identities tying the case tables to the binary "
+            "properties. The legacy class closure (add_icase_code_points reaches only FOLDS) is reported as a known finding.",
+    "note": COMMON_NOTE + "Not decided: equality of the tables with Unicode 17 CaseFolding.txt / UnicodeData.txt (no copy offline; identities only catch internal inconsistency).",
+    "technique": "interval/table algebra over constants extracted from the type-checked crate + MIR value-flow for the legacy guard + call-graph reachability to tables",
+    "design_ref": "DESIGN.md §3 TABLES/WIRING, §4 C10",
 }
 
 PENDING = "rules for this property are designed (DESIGN.md §3/§4) but not built yet; nothing is claimed until they exist"
